@@ -1,4 +1,14 @@
-"""C07 — HTML serializer output re-parses to the same tree; inner equals outer."""
+"""C07 — HTML serializer output re-parses to the same tree; inner equals outer.
+
+Defects of the pinned snapshot, all repaired in /repo (oracle detail prefixes, see KNOWN_MATCHERS):
+  D1 write_escaped drops 0xC2 not followed by 0xA0          (fix 423f1bc, model switch Cfg.fixC2)
+  D2 ChildrenOnly(Some(name)) ignores name.ns                (fix b9175dc, model switch Cfg.fixNs)
+  D3 ChildrenOnly(Some(void)) does not set ignore_children   (fix f7b6360, model switch Cfg.fixVoid)
+The oracle (python reference serializer below) always demands the fixed behaviour; the Lean model
+follows `Cfg.current` in lean/H5V/Model/HtmlSer.lean (all switches on).  corpus/C07/defects.case holds
+the former witnesses as regression cases.  If a fix is reverted the oracle reports Dn again and the
+correspondence disagrees; section 6 of lean/H5V/Props/C07.lean is where the model would be switched.
+"""
 import os
 import sys
 
@@ -24,8 +34,10 @@ THEOREMS = ["H5V.Props.C07." + t for t in [
     "C07_witness_void_children",
     # raw text only under HTML raw-text parents
     "C07_raw_only_html", "C07_scope_raw_partial",
-    # statements about the code as it is (Cfg.current)
-    "C07_current_write_escaped", "C07_current_inner_outer",
+    # full-strength statements about the code as it is (Cfg.current = all fixes in)
+    "C07_current_write_escaped", "C07_current_inner_outer", "C07_current_scope_raw",
+    # history: the pinned snapshot (Cfg.pinned) and its defects
+    "C07_pinned_write_escaped", "C07_pinned_inner_outer", "C07_pinned_void_children",
 ]]
 TRUSTED = [
     "Lean 4 kernel; axioms ⊆ {propext, Classical.choice, Quot.sound} (audited per run)",
@@ -56,10 +68,11 @@ RULE = ("engine ser. Families: esc* = one div with attribute value and text = s,
         "ordinary trees under a div root (real parse_fragment round trip); parsed = documents parsed by the real "
         "parser (both scripting settings), each serialised with both scripting settings. non-trivial = some "
         "bytes written; distinct = distinct (case, output)")
-EXPLANATION = ("theorems: byte loop of write_escaped = UTF-8 of character-level escape (partial: defect 1), "
-               "unescape∘escape = id, no `<`/`\"` survives, serializer = pure renderer, inner = outer by "
-               "comparing the ElemInfo pushed by start_elem with the one built by HtmlSerializer::new "
-               "(partial: defect 2, finding 3), raw text iff HTML raw-text parent")
+EXPLANATION = ("theorems: byte loop of write_escaped = UTF-8 of character-level escape for all strings "
+               "(C07_current_write_escaped), unescape∘escape = id, no `<`/`\"` survives, serializer = pure "
+               "renderer, inner = outer for every element by comparing the ElemInfo pushed by start_elem with "
+               "the one built by HtmlSerializer::new (C07_current_inner_outer), raw text iff HTML raw-text "
+               "parent; `_partial`/`_witness`/`_pinned` theorems document the three repaired defects")
 
 RAW = ["style", "script", "xmp", "iframe", "noembed", "noframes", "plaintext"]
 VOID = ["area", "base", "basefont", "bgsound", "br", "col", "embed", "frame", "hr", "img", "input", "keygen",
